@@ -84,7 +84,11 @@ def cases(ctx):
         txs = [G.gen_tx(rng, names, kind='coinbase' if i == 0 else None, max_in=4, max_out=4, big=False) for i in range(n)]
         slices = [t.to_bytes(t.has_segwit) for t in txs]
         body = b''.join(slices)
-        raw = MAGIC + (80 + len(cs(n)) + len(body)).to_bytes(4, 'little') + G.rbytes(rng, 80) + cs(n) + body
+        # the frame's magic is four opaque bytes to the parser: the listed networks, testnet4, a custom signet, anything
+        magic = rng.choice([MAGIC, MAGIC, bytes.fromhex('0b110907'), bytes.fromhex('fabfb5da'), bytes.fromhex('0a03cf40'),
+                            bytes.fromhex('1c163f28'), bytes(4), b'\xff' * 4, G.rbytes(rng, 4)])
+        ctx.count('synthetic-block-magic-' + magic.hex())
+        raw = magic + (80 + len(cs(n)) + len(body)).to_bytes(4, 'little') + G.rbytes(rng, 80) + cs(n) + body
         ctx.count('synthetic-block'); ctx.count('synthetic-block-txs', n)
         yield from block_cases(ctx, raw, slices, f'block-{n}', nt=n >= 2)
     # a block whose declared count exceeds what follows: the loop stops silently
